@@ -278,9 +278,12 @@ Lemma replacement_helper_pi ivar ovar comp F G :
 Proof.
   unfold replacement_helper.
   match goal with |- (if ?c then _ else _) = _ -> _ => destruct c end; [|intros [= _ ?]; discriminate].
-  destruct (first_char (vname ivar)) as [variant|] eqn:Fc; [|discriminate].
-  destruct (SimplClassic.choose_fresh_variable_names (variables F) variant 1) as [|fvar rest] eqn:CF; [discriminate|].
-  pose proof (choose_fresh_one_name _ _ _ _ (first_char_nonempty _ _ Fc) CF) as Hf.
+  assert (Hvne : fresh_variant (vname ivar) <> "").
+  { unfold fresh_variant. destruct (first_char (trim_start_underscores (vname ivar))) as [v|] eqn:Fc.
+    - exact (first_char_nonempty _ _ Fc).
+    - discriminate. }
+  destruct (SimplClassic.choose_fresh_variable_names (variables F) (fresh_variant (vname ivar)) 1) as [|fvar rest] eqn:CF; [discriminate|].
+  pose proof (choose_fresh_one_name _ _ _ _ Hvne CF) as Hf.
   destruct F as [a|g|c l r|q vars f]; try discriminate.
   destruct (substitute f ovar (GInt (IVar fvar))) as [f'|] eqn:Sub; [|discriminate].
   intros [= <-] H. apply pi_q in H. destruct H as [Hn HF]. apply pi_q. split.
